@@ -1,4 +1,4 @@
-HOOK_COMMITS = ['261214f', '7473a7b', 'b193b9c', '236d7ec', 'e2efb1f', '03a69db', 'cfb1ec0', '69ed101']
+HOOK_COMMITS = ['261214f', '7473a7b', 'b193b9c', '236d7ec', 'e2efb1f', '03a69db', 'cfb1ec0', '69ed101', '377fa64']
 FIX_COMMITS = ['6ab1b61', 'aa5da3f', '23893cd', 'b2f43bf', '6457cb8', '9d7243e', '99e9484', '2173ac6', '62af4cc', '26a6dc2', '11fc74a', '0f6d027', 'e5a31d6', '90ab653', 'c33be62', '33896dd', '86f9aa3', '5aea712', '7455c3e', '08de576', '70dc05f', 'a801988', '4988600', 'bf937de']
 NOTES = ('Every check: proof gate (full coq build, forbidden-construct scan, Print Assumptions allow-list = empty) '
          '+ correspondence (extracted model vs real code on corpus + generated cases) + model-free oracle; '
@@ -303,3 +303,10 @@ CLAIMED['C12']['text'] += (' PAYLOAD SETTERS (Packet/Payload.v, Proofs/PayloadPr
     'leave every header bit and everything behind the payload untouched (frame against all 88 header getters), commute with the header setters, fault iff the payload does not fit (the Rust code panics there), and are read back by payload() / payload_raw() '
     '(with the exact cut at the IPv6 payload length, the extension-object length and the RFC 4884 length); agreement with the setters used by the C11 dispatch model; c12pay lines through the real setters. '
     'Shown by witness: release-build Ipv6Packet::set_payload does not touch payload_length, so payload() of a fresh buffer returns nothing (the debug build asserts); not called by trippy-core.')
+
+CLAIMED['C18']['text'] = CLAIMED['C18']['text'].replace('not yet compared with real frames - ', 'NOW TIED to the real frames, see below - ') + (' TEXT TIE (Tui/Frames.v, Proofs/TuiViewsText.v, 14 further theorems, 39 in all): the extracted Tui/Views.v prints, for every frame of mode c18, '
+    'the text of the Host cell of every row (all lines, row height) in a pseudo-random cell of address mode x AS mode x GeoIP mode x max_addrs x details x selection, the map info panel, the number of pins and whether a selection box is drawn, and the target line - '
+    'and the real reference frames (250 columns) must show exactly that; theorems: frame and cell text are independent of hidden strings for any renderer, hidden row / panel are exactly the placeholder, visible rows name their addresses, the whole table is a function of the visible hops\' data.')
+CLAIMED['C09']['text'] += (' THE WAIT ITSELF (Net/Platform.v, c09_interrupted_wait_is_a_timeout, c09_select_error_is_fatal): an interrupted select is a wait that found nothing, any other errno is the fatal error; tied to the real SocketImpl by mode platform '
+    '(loopback datagram sockets idle / under a stream of signals / with a datagram arriving; hook re-export 377fa64).')
+CLAIMED['C04']['text'] += ' About a third of the datagrams of mode recv are received with every tracing call site enabled and every field formatted (logging at trace level).'
